@@ -192,7 +192,9 @@ func (f *OrefaFile) Read(b []byte) (n int, err error) {
 	}
 
 	nd.mu.RLock()
-	n = copy(b, nd.data[f.at:])
+	if f.at < int64(len(nd.data)) {
+		n = copy(b, nd.data[f.at:])
+	}
 	nd.mu.RUnlock()
 
 	f.at += int64(n)
@@ -626,6 +628,11 @@ func (f *OrefaFile) Write(b []byte) (n int, err error) {
 	}
 
 	nd.mu.Lock()
+
+	if diff := f.at - int64(len(nd.data)); diff > 0 {
+		// the offset is beyond the end of the file : fill the gap with zeros.
+		nd.data = append(nd.data, make([]byte, diff)...)
+	}
 
 	n = copy(nd.data[f.at:], b)
 	if n < len(b) {
